@@ -182,6 +182,15 @@ pub fn encode_table(rng: &mut Rng, cmp: &CmpKind, es: &[(Vec<u8>, Vec<u8>)], mut
         if mutate && rng.chance(1, 12) {
             damage(rng, &mut hv);
         }
+        if mutate && rng.chance(1, 10) {
+            // boundary handles: offset + size at the edge of usize
+            let a = usize::MAX - rng.below(8);
+            hv = match rng.below(3) {
+                0 => handle(off, a - off),
+                1 => handle(a, 0),
+                _ => handle(a - size, size),
+            };
+        }
         index.push((sep, hv));
     }
     desc.push(format!("blocks={}", parts.len()));
